@@ -70,10 +70,13 @@ Definition read (s : astate) (t : tbl) (addr n : Z) : list Z :=
 
 (* cells addr .. addr+|vs|-1 of the storage behind t take the values vs; nothing else changes *)
 Definition write (s : astate) (t : tbl) (addr : Z) (vs : list Z) : astate :=
+  let n := Z.of_nat (length vs) in
+  let blk := a_slot s t in
   {| a_slot := a_slot s;
      a_cell := fun b k =>
-       if Nat.eqb b (a_slot s t) && (addr <=? k) && (k <? addr + Z.of_nat (length vs))
-       then nth_error vs (Z.to_nat (k - addr)) else a_cell s b k |}.
+       if Nat.eqb b blk
+       then (if (addr <=? k) && (k <? addr + n) then nth_error vs (Z.to_nat (k - addr)) else a_cell s b k)
+       else a_cell s b k |}.
 
 (* ---------------------------------------------------------------- wire data *)
 (* coil data: least significant bit of the first byte is the first coil *)
